@@ -212,6 +212,12 @@ def enumerate_stops(ctx, conf, tmpdir):
                 case["logger"] = bool((k + j) % 3 == 0)  # as --debug / --debug-file do
                 case["stale_files"] = bool((k + j) % 2 == 0)  # an earlier session's files sit at the output paths
                 case["stop"] = {"after_reads": k, "extra_steps": rng.choice((0, 0, 1, 2, 3, 5, 8))}
+                if (k + 2 * j) % 5 == 3:
+                    # the stop is asked for by an observer thread (after its first / second / ... detection), not by the main thread
+                    case["stop"] = {"by": "observer", "after_detections": 1 + (k % 4 == 0), "after_reads": k, "extra_steps": 0}
+                    ctx.count("stops_requested_by_an_observer_thread")
+                if (k + j) % 4 == 1:
+                    case["start_order"] = "tokenizer-first"
                 case["strategy"] = P.S.NAMES[(k + j) % len(P.S.NAMES)]
                 case["sched_seed"] = rng.getrandbits(32)
                 case["timeout_budget"] = rng.choice((0, 3, 10, 50))
@@ -586,7 +592,7 @@ def inconclusive(merged, tier):
     c = merged["counters"]
     need = ["scheduled_runs", "stop_points_enumerated", "streams_with_every_stop_point_covered", "stops_before_stream_end",
             "stops_with_a_read_in_flight", "observer_logs_checked", "saved_streams_checked", "joiner_files_checked",
-            "line_mode_runs", "instruction_mode_runs", "all_module_line_mode_runs", "sigint_children_checked", "timeouts_fired", "systematic_schedules", "systematic_pipelines_fully_enumerated", "stops_after_an_injected_source_fault", "stops_over_an_overlapping_reader", "stops_in_streams_with_blocks_that_look_like_internal_messages", "lagging_saver_runs", "lagging_observer_stop_runs", "huge_stop_runs", "unencodable_stop_runs"]
+            "line_mode_runs", "instruction_mode_runs", "all_module_line_mode_runs", "sigint_children_checked", "timeouts_fired", "systematic_schedules", "systematic_pipelines_fully_enumerated", "stops_after_an_injected_source_fault", "stops_over_an_overlapping_reader", "stops_requested_by_an_observer_thread", "stops_in_streams_with_blocks_that_look_like_internal_messages", "lagging_saver_runs", "lagging_observer_stop_runs", "huge_stop_runs", "unencodable_stop_runs"]
     out = [f"monitor never observed {k}" for k in need if c.get(k, 0) == 0]
     if c.get("inconclusive_runs", 0) > max(3, c.get("scheduled_runs", 0) // 50):
         out.append(f"{c['inconclusive_runs']} runs hit a step/wall cap or the sigint driver's watchdog")
